@@ -1,6 +1,7 @@
 package c15
 
 import (
+	"strings"
 	"os"
 	"path/filepath"
 	"testing"
@@ -31,6 +32,10 @@ func FuzzC15Parse(f *testing.F) {
 	f.Add([]byte("a = /* c\n */ b +"))
 	f.Add([]byte(";\n;x = 1"))
 	f.Add([]byte("x++; y--\nz++"))
+	// chains of ++ / --: the parser shares the operand node of `x--` (it stands for x = x - 1), so the
+	// tree of a chain is a graph that is exponentially larger when rendered as a tree (see internal/dump)
+	f.Add([]byte("\"\"" + strings.Repeat("-", 400)))
+	f.Add([]byte("a" + strings.Repeat("+", 301) + "\nb" + strings.Repeat("-", 77)))
 	// hostile constants: a backslash in a quoted string followed by the ends of the ASCII range
 	for _, q := range []string{"\"", "'"} {
 		for _, r := range []string{"\x00", "\x7f", "\x80", "\xff", "~", "\n"} {
